@@ -135,6 +135,8 @@ type plRunner struct {
 	conns map[int]*fakeConn
 
 	cs        calls
+	panicMu   sync.Mutex
+	panicMsg  string
 	closeDone chan struct{}
 	closing   bool
 }
@@ -177,6 +179,15 @@ func (r *plRunner) startCall(c int) {
 	r.cs.mu.Unlock()
 	r.rec.Log("Start", "c", c)
 	go func() {
+		defer func() {
+			if p := recover(); p != nil { // a panic of the code under test is a conformance failure
+				r.panicMu.Lock()
+				r.panicMsg = fmt.Sprint(p)
+				r.panicMu.Unlock()
+				r.rec.Log("Return", "c", c, "res", "panic", "vc", -1, "vw", -1, "err", fmt.Sprint(p))
+				close(cl.done)
+			}
+		}()
 		resp, err := r.t.ExchangeContext(ctx, queryFor(c))
 		vc := -1
 		if err == nil && resp != nil {
@@ -259,8 +270,10 @@ func (r *plRunner) step(s Step) (bool, string) {
 			r.mu.Lock()
 			r.conns[x] = f
 			r.mu.Unlock()
-			if !op.Complete(f, nil) {
-				return false, fmt.Sprintf("dial %d ended before it could succeed", x)
+			if !op.Complete(f, nil) { // the dial ended through its context in the meantime: no such connection
+				r.mu.Lock()
+				delete(r.conns, x)
+				r.mu.Unlock()
 			}
 		} else {
 			op.Complete(nil, simnet.ErrRefused)
@@ -509,5 +522,8 @@ func runPipeline(idx int, sc Script) Result {
 		}
 	}
 	res.Events = out
+	r.panicMu.Lock()
+	res.Panic = r.panicMsg
+	r.panicMu.Unlock()
 	return res
 }
